@@ -1,7 +1,7 @@
 #!/usr/bin/env python3
 """seedrun.py <patch> <check id>... : apply a seeded change to /repo, run the quick checks, undo. Prints rc + summary per check."""
 import subprocess, sys, os, json, time
-patch, checks = sys.argv[1], sys.argv[2:]
+patch, checks = os.path.abspath(sys.argv[1]), sys.argv[2:]
 tier = os.environ.get("SEED_TIER", "quick")
 st = subprocess.run(["git", "-C", "/repo", "status", "--porcelain"], capture_output=True, text=True).stdout.strip()
 if st:
